@@ -37,11 +37,44 @@ pub fn exec_line(line: &str) -> String {
   let op = parts[0];
   let a = match ints(&parts[1..]) { Some(v) => v, None => return "bad-op".to_string() };
   if noise_enabled() {
-    // history pass: before answering, make unusual but legitimate calls about the same year(s); answers must not change
+    // history pass: before answering, make unusual but legitimate calls about the same year(s) and, when the request starts
+    // with a civil date, every view of that date; answers must not change
     for v in a.iter().take(2) { if (1..=9999).contains(v) { noise_year(*v); } }
+    if a.len() >= 3 && (1..=9999).contains(&a[0]) && (1..=12).contains(&a[1]) && (1..=31).contains(&a[2]) {
+      noise_date(a[0], a[1], a[2], if a.len() >= 4 { a[3] } else { 12 });
+    }
   }
   guard(|| crate::dispatch_exec(op, &a))
 }
+
+/// the same without any history (used by the pairs mode)
+pub fn exec_line_plain(line: &str) -> String {
+  let parts: Vec<&str> = line.split_whitespace().collect();
+  if parts.is_empty() { return "bad-op".to_string(); }
+  let a = match ints(&parts[1..]) { Some(v) => v, None => return "bad-op".to_string() };
+  guard(|| crate::dispatch_exec(parts[0], &a))
+}
+
+/// A battery of getters on the civil date (y, m, d), its lunar date, its sexagenary views and the instant at hour h — every
+/// public view the library derives from a date. Made BEFORE a real query about the same date; none of it may change the answer.
+pub fn noise_date(y: i64, m: i64, d: i64, h: i64) {
+  use tyme4rs::tyme::solar::{SolarDay, SolarTime};
+  use tyme4rs::tyme::Tyme;
+  let q = |f: &dyn Fn()| { let _ = std::panic::catch_unwind(std::panic::AssertUnwindSafe(|| f())); };
+  let (yi, mu, du) = (y as isize, m as usize, d as usize);
+  if SolarDay::new(yi, mu, du).is_err() { return; }
+  q(&|| { let x = SolarDay::from_ymd(yi, mu, du); let _ = x.get_term_day(); let _ = x.get_term(); let _ = x.get_phenology_day(); let _ = x.get_hide_heaven_stem_day(); });
+  q(&|| { let x = SolarDay::from_ymd(yi, mu, du); let _ = x.get_nine_day(); let _ = x.get_dog_day(); let _ = x.get_plum_rain_day(); let _ = x.get_constellation(); let _ = x.get_festival(); let _ = x.get_legal_holiday(); });
+  q(&|| { let x = SolarDay::from_ymd(yi, mu, du); let _ = x.get_week(); let _ = x.get_index_in_year(); let _ = x.get_solar_week(0); let _ = x.next(1); let _ = x.next(-1); });
+  q(&|| { let l = SolarDay::from_ymd(yi, mu, du).get_lunar_day(); let _ = l.get_solar_day(); let _ = l.get_sixty_cycle(); let _ = l.get_festival(); let _ = l.get_week(); let _ = l.get_six_star(); let _ = l.get_phase(); let _ = l.next(1); let _ = l.get_hours(); });
+  q(&|| { let l = SolarDay::from_ymd(yi, mu, du).get_lunar_day(); let _ = l.get_duty(); let _ = l.get_twelve_star(); let _ = l.get_nine_star(); let _ = l.get_twenty_eight_star(); let _ = l.get_gods(); let _ = l.get_recommends(); let _ = l.get_avoids(); let _ = l.get_fetus_day(); let _ = l.get_minor_ren(); });
+  q(&|| { let v = SolarDay::from_ymd(yi, mu, du).get_sixty_cycle_day(); let _ = v.get_year(); let _ = v.get_month(); let _ = v.get_duty(); let _ = v.get_nine_star(); let _ = v.get_gods(); let _ = v.next(1); let _ = v.get_hours(); });
+  if (0..=23).contains(&h) {
+    q(&|| { let t = SolarTime::from_ymd_hms(yi, mu, du, h as usize, 30, 0); let _ = t.get_term(); let _ = t.get_julian_day(); let _ = t.next(3600); let lh = t.get_lunar_hour(); let _ = lh.get_eight_char(); let _ = lh.get_sixty_cycle(); let _ = lh.get_nine_star(); let _ = lh.get_twelve_star(); let _ = lh.next(1); });
+    q(&|| { let v = SolarTime::from_ymd_hms(yi, mu, du, h as usize, 30, 0).get_sixty_cycle_hour(); let _ = v.get_year(); let _ = v.get_sixty_cycle_day(); let _ = v.get_nine_star(); let _ = v.get_twelve_star(); let _ = v.get_eight_char(); let _ = v.next(1); });
+  }
+}
+
 
 pub fn noise_enabled() -> bool {
   static ON: std::sync::OnceLock<bool> = std::sync::OnceLock::new();
